@@ -177,3 +177,9 @@ package keeper
 //@   ensures[C05.gasa.set] err == nil ==> r0 != nil
 //@ loop #1
 //@   invariant ret != nil
+
+// C20 (an operator's result for a task is challenged at most once): the "already challenged" question is answered from
+// the collection the challenges are written to, under the key they are written under - operator, task contract, task id.
+//@ func (*Keeper).IsExistTaskChallengedInfo
+//@   flag pure=FormatUint
+//@   ensures[C20.ietci.key] r0 == (get(ctx, "avs", cat(g("x/avs/types.KeyPrefixTaskChallengeResult"), join(operatorAddress, taskContractAddress, res_FormatUint_0))) != nil)
